@@ -196,7 +196,11 @@ def selectors(draw, U, xletters, allow_list, force_nonempty=False):
             continue
         items = build.udim(U, l)["items"]
         if k == "single":
-            sel[l] = {"kind": "single", "items": [items[draw(st.integers(0, len(items) - 1))]]}
+            falsy = [i for i in items if not i and not isinstance(i, str)]
+            if falsy and draw(st.booleans()):
+                sel[l] = {"kind": "single", "items": [falsy[0]]}  # the label 0 is a label like any other
+            else:
+                sel[l] = {"kind": "single", "items": [items[draw(st.integers(0, len(items) - 1))]]}
         else:
             if len(items) >= 3 and draw(st.integers(0, 2)) == 0:
                 # a contiguous run of the parent's items in a permuted order (looks "almost like a slice")
